@@ -55,7 +55,8 @@ PROPS["C04"] = dict(
     # the compared observables are exactly what the property fixes (verdict, unifier up to renaming, resolved answer, order, call log):
     # a disagreement with the proved model on a case is a failing input
     mismatch_is_input=True,
-    model="GCore.v (transcription of gomini/unify.go over Reflect.v) + GVal.v (injective encoding; gunify = unify on encodings)",
+    model="GCore.v = gen/GominiGen.v (translated from gomini/unify.go on every run; GominiGenSpec.v) over Reflect.v + GVal.v (injective encoding; gunify = unify on encodings)",
+    gens=[gens.gen_gomini],
     harness=[dict(name="main", n_quick=1500, n_thorough=2500, shards_quick=1, shards_thorough=10)],
     trusted=_GOMINI_TRUSTED + ["the harness's independent reference unifier (oracle for verdict / most-general / content independence)"],
     assumptions=["every EqualO compares two values of one static Go type (guaranteed by the generic signature)",
@@ -89,7 +90,7 @@ PROPS["C08"] = dict(
     # a disagreement with the proved model on a case is a failing input
     mismatch_is_input=True,
     model="Reify.v (walkstar/reifys = gen/MicroGen.v, translated from micro/walk.go, reify.go on every run); GCore.v (grewrite: transcription of gomini rewrite over Reflect.v)",
-    gens=[gens.gen_micro],
+    gens=[gens.gen_micro, gens.gen_gomini],
     harness=[dict(name="main", n_quick=1500, n_thorough=2500, shards_quick=1, shards_thorough=8)],
     trusted=_PROG_TRUSTED + _GOMINI_TRUSTED,
     assumptions=["reified names are the ordinary symbols _k (a user symbol _k is indistinguishable from a reified variable)"],
